@@ -434,12 +434,15 @@ func randPCEvent(q *x) (tcgref.PCEvent, *eventlog.TCGPCClientPCREvent) {
 }
 
 // normData strips documented zero padding from SP800-155 event data (reference side).
-func normData(b []byte) []byte {
+func normData(outer *tcgref.Dec, b []byte) []byte {
 	if !tcgref.HasEvt3Signature(b) {
 		return b
 	}
 	d := &tcgref.Dec{B: b[16:]}
 	v := d.Evt3Body()
+	if d.MaxDeclared > outer.MaxDeclared { // sizes inside the payload count for the allocation guard
+		outer.MaxDeclared = d.MaxDeclared
+	}
 	if d.Err != nil {
 		return b
 	}
@@ -560,7 +563,7 @@ func caseEventData(q *x) {
 	e := &tcgref.Enc{}
 	e.Arr32(raw)
 	s := stream{name: "TCGEventData", padded: true, fresh: func() codec { return &eventlog.TCGEventData{} },
-		canon: canonOf(func(d *tcgref.Dec, e *tcgref.Enc) { e.Arr32(normData(d.Arr32())) }),
+		canon: canonOf(func(d *tcgref.Dec, e *tcgref.Enc) { e.Arr32(normData(d, d.Arr32())) }),
 		same:  func(c codec) (bool, string) { return sameEventData(c.(*eventlog.TCGEventData), raw) }}
 	checkStream(q, s, &ed, e.B)
 }
@@ -572,7 +575,7 @@ func casePCEvent(q *x) {
 	s := stream{name: "TCGPCClientPCREvent", padded: true, fresh: func() codec { return &eventlog.TCGPCClientPCREvent{} },
 		canon: canonOf(func(d *tcgref.Dec, e *tcgref.Enc) {
 			p := d.PCEvent()
-			p.Data = normData(p.Data)
+			p.Data = normData(d, p.Data)
 			e.PCEvent(p)
 		}),
 		same: func(c codec) (bool, string) { return samePCEvent(c.(*eventlog.TCGPCClientPCREvent), v) }}
@@ -606,7 +609,7 @@ func caseEvent2(q *x) {
 	s := stream{name: "TCGPCREvent2", padded: true, fresh: func() codec { return &eventlog.TCGPCREvent2{} },
 		canon: canonOf(func(d *tcgref.Dec, e *tcgref.Enc) {
 			p := d.Event2()
-			p.Data = normData(p.Data)
+			p.Data = normData(d, p.Data)
 			e.Event2(p)
 		}),
 		same: func(c codec) (bool, string) { return sameEvent2(c.(*eventlog.TCGPCREvent2), v) }}
@@ -630,9 +633,9 @@ func caseLog(q *x) {
 	s := stream{name: "CryptoAgileLog", padded: true, toEOF: true, fresh: func() codec { return &eventlog.CryptoAgileLog{} },
 		canon: canonOf(func(d *tcgref.Dec, e *tcgref.Enc) {
 			p := d.Log()
-			p.Header.Data = normData(p.Header.Data)
+			p.Header.Data = normData(d, p.Header.Data)
 			for i := range p.Events {
-				p.Events[i].Data = normData(p.Events[i].Data)
+				p.Events[i].Data = normData(d, p.Events[i].Data)
 			}
 			e.Log(p)
 		}),
